@@ -48,8 +48,8 @@ def model_sizeof(spec, sc):
         return 0
     if k == "const":
         return len(spec[1]) if spec[2] is None else model_sizeof(spec[2], sc)
-    if k in ("rebuild", "default"):
-        return model_sizeof(spec[1], sc)
+    if k in ("rebuild", "default", "bitwise", "bytewise"):
+        return model_sizeof(spec[1], sc)     # (Bitwise(Bytewise(x)) is x seen through two transforming layers: same size)
     if k == "bytes":
         n = ev(spec[1])
         if not isinstance(n, int):
@@ -121,7 +121,7 @@ def paths_for(g, chain, has_index, in_sizeof_ok=False):
     return out
 
 
-def gen_probe(g, chain, has_index, later_marker=None, allow=None, buildnone_only=False):
+def gen_probe(g, chain, has_index, later_marker=None, allow=None, buildnone_only=False, fixed_layout=False):
     """one planted member: (name|None, spec, value to supply or None) ; has_index = number of scopes (incl. current) that
     inherited a repetition index (0 = none)"""
     draw = g.draw
@@ -137,6 +137,8 @@ def gen_probe(g, chain, has_index, later_marker=None, allow=None, buildnone_only
     else:
         role = draw(st.sampled_from(["computed", "rebuild", "bytes", "switch", "array", "ite", "arith"] if not buildnone_only else
                                     ["computed", "rebuild", "switch", "ite", "arith"]))
+        if fixed_layout:
+            role = draw(st.sampled_from(["computed", "rebuild", "arith"]))      # the reference decides a value, never the layout
     nm = g.name("p")
     if role == "computed":
         return nm, ["computed", path], None
@@ -161,12 +163,23 @@ def gen_probe(g, chain, has_index, later_marker=None, allow=None, buildnone_only
     return nm, ["switch", path, cases, ["const", TAGS[9], None]], None
 
 
-def gen_scope(g, chain, depth, has_index, in_grange=False, want_index=False, element_of_grange=False):
+def _names_in(e):
+    if e[0] == "this":
+        return list(e[1])
+    if e[0] in ("const", "obj"):
+        return []
+    if e[0] == "bin":
+        return _names_in(e[2]) + _names_in(e[3])
+    return _names_in(e[2])
+
+
+def gen_scope(g, chain, depth, has_index, in_grange=False, want_index=False, element_of_grange=False, fixed_layout=False):
     """-> (spec, value) for one scope; chain = [(marker name, value)...] of enclosing scopes"""
     draw = g.draw
     # (a LazyStruct skips its members by seeking and so never notices a truncated element: not inside GreedyRange elements)
     # (a Union with parsefrom=None consumes nothing: as the element of a GreedyRange it would denote an endless list)
-    kind = draw(st.sampled_from(["struct", "struct", "struct", "seq", "fseq"] + ([] if element_of_grange else ["union"]) + ([] if in_grange else ["lazystruct"])))
+    kind = draw(st.sampled_from(["struct", "struct", "struct", "seq", "fseq"] + ([] if element_of_grange or fixed_layout else ["union"]) +
+                                ([] if in_grange or fixed_layout else ["lazystruct"])))
     if kind != "struct":
         g.labels.add("nontrivial")
         g.labels.add("scope/" + kind)
@@ -195,7 +208,9 @@ def gen_scope(g, chain, depth, has_index, in_grange=False, want_index=False, ele
             al = allow
             if want_index and hi and j == 0 and kind != "lazystruct":
                 al = ("index",)     # element of a repetition: at least one member depends on the repetition index
-            nm, sp, val = gen_probe(g, here, hi, allow=al, buildnone_only=(kind == "fseq"))    # (a FocusedSeq builds only its focus from a value)
+            if fixed_layout:
+                al = ("marker", "param")
+            nm, sp, val = gen_probe(g, here, hi, allow=al, buildnone_only=(kind == "fseq"), fixed_layout=fixed_layout)    # (a FocusedSeq builds only its focus from a value)
             members.append([nm, sp])
             values[nm] = val
     if kind == "union":
@@ -208,11 +223,22 @@ def gen_scope(g, chain, depth, has_index, in_grange=False, want_index=False, ele
     add_probes(draw(st.integers(1 if want_index else 0, 2)))
     if depth > 1 and kind != "lazystruct" and not (kind == "fseq" and mform == "plain") and draw(st.integers(0, 4)) != 0:
         cname = g.name("c")
-        rep = draw(st.sampled_from(["none", "none", "array", "arrayk", "grange", "runtil"]))
+        rep = draw(st.sampled_from(["none", "none", "array", "arrayk", "grange", "runtil"] if not fixed_layout else ["none", "none", "array"]))
         # discard=True: the elements are processed (their references must resolve as ever, _index must keep counting) but not kept
         discard = rep != "none" and draw(st.integers(0, 3)) == 0
         if rep == "none":
-            cs, cv, _ = gen_scope(g, here, depth - 1, hi, in_grange)
+            # a nested scope of fixed layout (references decide values only) can sit inside a SIZED transforming region
+            fixed_child = fixed_layout or (kind != "fseq" and draw(st.integers(0, 5)) == 0)
+            cs, cv, _ = gen_scope(g, here, depth - 1, hi, in_grange, fixed_layout=fixed_child)
+            seeking = any(n[0] in ("union", "lazystruct", "grange") for n in G.walk(cs))     # (no seeking inside a bit-level region)
+            # (Bitwise sizes its inner construct when it is created: no _index then, and a layout that depends on the mode flags has
+            #  one size while sizing and another while building - an ill-formed fixed-size region, not a library matter)
+            sizing_index = any(nm in ("_index", "_parsing", "_building", "_sizing") for e, _ in G.exprs_in(cs) for nm in _names_in(e))
+            if (draw(st.integers(0, 2)) == 0 or (fixed_child and not fixed_layout)) and kind != "fseq" and not seeking and not sizing_index:
+                # the nested scope behind two transforming layers that cancel out (bits of bytes of bits): the context must pass
+                # through Transformed (sized scope) or Restreamed (unsized scope) untouched
+                cs = ["bitwise", ["bytewise", cs]]
+                g.labels.add("wrapped/bitwise-bytewise")
             members.append([cname, cs])
             values[cname] = cv
         else:
@@ -222,8 +248,8 @@ def gen_scope(g, chain, depth, has_index, in_grange=False, want_index=False, ele
             if rep == "arrayk" and g.params:
                 pk = draw(st.sampled_from(sorted(g.params)))
                 n = g.params[pk]
-            cs, cv, _ = gen_scope(g, here, depth - 1, 1, in_grange or rep == "grange", want_index=discard or draw(st.integers(0, 2)) == 0,
-                                   element_of_grange=(rep == "grange"))
+            cs, cv, _ = gen_scope(g, here, depth - 1, 1, in_grange or rep == "grange", want_index=(discard or draw(st.integers(0, 2)) == 0) and not fixed_layout,
+                                   element_of_grange=(rep == "grange"), fixed_layout=fixed_layout)
             if discard:
                 g.labels.add("repetition/discard")
             if rep == "array":
